@@ -37,8 +37,33 @@ let ev_s = function
 let rec take n l = if n <= 0 then [] else match l with [] -> [] | x :: r -> x :: take (n - 1) r
 let words c = String.concat "," (List.map (fun w -> string_of_n (word_N w)) c.ids)
 let bits f c = String.concat "" (List.map (fun th -> if f th then "1" else "0") c.threads)
+(* ENUM <limit> / bodies / progs : every maximal interleaving (only enabled threads are chosen) *)
+let enum limit c0 =
+  let out = ref [] and n = ref 0 and complete = ref true in
+  let nt = List.length c0.threads in
+  let rec go c acc =
+    if !n >= limit then complete := false else begin
+      let any = ref false in
+      for ti = 0 to nt - 1 do
+        match step c (nat_of_int ti) with
+        | Some c' -> any := true; go c' (Char.chr (48 + ti) :: acc)
+        | None -> ()
+      done;
+      if not !any then begin
+        incr n;
+        out := (String.init (List.length acc) (fun i -> List.nth (List.rev acc) i)) :: !out
+      end
+    end in
+  go c0 [];
+  (if !complete then "COMPLETE " else "PARTIAL ") ^ String.concat " " (List.rev !out)
+
 let () = each_line (fun line ->
   match split_on '/' line with
+  | [hd; bds; progs] when String.length hd > 4 && String.sub hd 0 4 = "ENUM" ->
+      let (limit, nids) = (match split_ws hd with [_; l; _; b] -> (int_of_string l, int_of_string b) | _ -> failwith "hd") in
+      let bodies = if String.trim bds = "" then [] else List.map parse_list (split_on ';' bds) in
+      let progs = List.map parse_list (split_on ';' progs) in
+      enum limit (init progs (nat_of_int nids) bodies)
   | [hd; bds; progs; sched] ->
       let nids = (match split_ws hd with [_; b] -> int_of_string b | _ -> failwith "hd") in
       let bodies = if String.trim bds = "" then [] else List.map parse_list (split_on ';' bds) in
